@@ -164,6 +164,15 @@ fn metamorphic(name: &'static str, relabel: bool) -> impl Fn(&Case) -> Verdict +
     }
 }
 
+/// fz_single: view, N, stream; oracle = the exact definition clause
+pub fn fuzz_decode(u: &mut arbitrary::Unstructured) -> Option<(String, Case)> {
+    let vs = views();
+    let vd = &vs[u.int_in_range(0..=vs.len() - 1).ok()?];
+    let n = vd.min_n + u.int_in_range(0..=23usize).ok()?;
+    let xs = crate::fuzzdec::stream(u, vd.positive, 160);
+    Some((format!("C06/{}/definition/Q", vd.name), Case::of((vd.mk)(n), xs)))
+}
+
 pub fn clauses() -> Vec<Clause> {
     let rule = "N in 3..24 (thorough ..120), dyadic grid, grammar stream of 0..3N+8 values followed by one of: strictly monotone window with unequal steps, arithmetic progression, monotone window with one jump against the trend placed at a generated window position (including the oldest pair), constant window then tie-rich staircase, sum-zero window. Compared with Pearson r (values vs index), Kendall tau over all pairs with ties = 0, and the CoG formula at every full-window step. Non-trivial: at least 3 full-window steps and an eviction; labels record monotone / linear / flat / tie / zero-sum windows.";
     let mut v = vec![];
